@@ -34,6 +34,7 @@ theorem eForP_eq_contrib {prog : Nat → Option ClaimProgress} {users : List Nat
     have := (hP.pos u p hp).2
     simp only [this, if_true, Lot.contrib]
     rw [Energy.after_getEnergyAmount, toNat_sub_nat]
+    rfl
 
 theorem shiftN_totalEnergy : ∀ (n : Nat) {g g' : St} {t t' : Totals},
     shiftN n g t = some (g', t') → g'.totalEnergy = g.totalEnergy ∧ g'.progress = g.progress := by
